@@ -226,12 +226,25 @@ class Model:
     def _all_plain_at(self, a):
         return all(self.is_plain_edge(l) for l in self.V[a]["links"])
 
+    def first_joining_before_awkward(self, a, b):
+        for l in self.V[a]["links"]:
+            if not self.is_plain_edge(l):
+                return None
+            if self.joins(l, a, b):
+                return l
+        return None
+
     def _link(self, op):
         _, fn, a, cname, b, dontdup, name = op
         if a not in self.V or b not in self.V or self.exists(name):
             return SKIP
         cname = {"directed": "DirectedEdge", "undirected": "UnDirectedEdge"}.get(fn, cname)
         if dontdup:
+            # the scan goes through a's links in order and stops at the first joining link: what lies BEHIND it
+            # (an n-ended link, an edge that lost an end) is never looked at
+            first = self.first_joining_before_awkward(a, b)
+            if first is not None and not self._all_plain_at(a):
+                return Expect("ok", first)
             if not self._all_plain_at(a):
                 # other() on a degenerate / n-ended link: outside the documented domain
                 js = [l for l in self.V[a]["links"] if self.is_plain_edge(l) and self.joins(l, a, b)]
